@@ -35,12 +35,14 @@ JOBQUEUE = {
             {"name": "random", "args": ["jobqueue", "-mode", "random", "-seed", "{seed}", "-runs", "150", "-steps", "90"]},
             {"name": "random-jcsync", "args": ["jobqueue", "-mode", "random", "-seed", "{seed}", "-runs", "100", "-steps", "90", "-jcsync"]},
             {"name": "random-jobsfirst", "args": ["jobqueue", "-mode", "random", "-seed", "{seed}", "-runs", "150", "-steps", "90", "-jobsfirst"]},
+            {"name": "random-fifo", "args": ["jobqueue", "-mode", "random", "-seed", "{seed}", "-runs", "200", "-steps", "90", "-fifo"]},
         ],
         "thorough": [
             {"name": "random", "args": ["jobqueue", "-mode", "random", "-seed", "{seed}", "-runs", "3000", "-steps", "110"]},
             {"name": "random-jcsync", "args": ["jobqueue", "-mode", "random", "-seed", "{seed}", "-runs", "2000", "-steps", "110", "-jcsync"]},
             {"name": "random-storelag", "args": ["jobqueue", "-mode", "random", "-seed", "{seed}", "-runs", "1500", "-steps", "110", "-storelag"]},
             {"name": "random-jobsfirst", "args": ["jobqueue", "-mode", "random", "-seed", "{seed}", "-runs", "1500", "-steps", "110", "-jobsfirst"]},
+            {"name": "random-fifo", "args": ["jobqueue", "-mode", "random", "-seed", "{seed}", "-runs", "2000", "-steps", "110", "-fifo"]},
             {"name": "random-applied", "args": ["jobqueue", "-mode", "random", "-seed", "{seed}", "-runs", "1500", "-steps", "110", "-applied"]},
         ],
     },
